@@ -726,4 +726,58 @@ theorem absL_sound {A : Auto} (S : Sound A) : ∀ (ts : List Tpl) (σ : Facts) (
       exact ⟨p2.1, Post_append p1.2 p2.2⟩
 end
 
+
+/-! ### from the decidable check to all environments -/
+
+theorem mem_assignments (f : Expr → Bool) : ∀ xs : List Expr, xs.map (fun e => (e, f e)) ∈ assignments xs := by
+  intro xs
+  induction xs with
+  | nil => simp [assignments]
+  | cons x xs ih =>
+    simp only [assignments, List.map_cons, List.mem_flatMap]
+    refine ⟨_, ih, ?_⟩
+    cases f x <;> simp
+
+/-- the truth value an expression has in an environment (false when it does not evaluate) -/
+def truthIn (env : Env) (e : Expr) : Bool :=
+  match eval env e with
+  | .ok v => truthy v
+  | .error _ => false
+
+theorem Consistent_truthIn (env : Env) (xs : List Expr) : Consistent (xs.map (fun e => (e, truthIn env e))) env := by
+  intro e b hm v hv
+  obtain ⟨e', _, heq⟩ := List.mem_map.mp hm
+  cases heq
+  simp [truthIn, hv]
+
+theorem Consistent_append {σ τ : Facts} {env : Env} (h1 : Consistent σ env) (h2 : Consistent τ env) :
+    Consistent (σ ++ τ) env := by
+  intro e b hm
+  rcases List.mem_append.mp hm with h | h
+  · exact h1 e b h
+  · exact h2 e b h
+
+/-- **The check is sound.** If `check` evaluates to `true` for a template then, for EVERY render
+context that agrees with the assumed facts and every rendering in which each interpolated value
+satisfies the invariant of its site, the automaton ends in a good state on the rendered text. -/
+theorem check_sound {A : Auto} (S : Sound A) (init : A.Q) (good : A.Q → Bool) (assume : Facts)
+    (enum : List Expr) (t : List Tpl) (h : check A init good assume enum t = true)
+    (ctx : List (String × Val)) (o : Out) (hr : renderTemplate ctx t = .ok o)
+    (hassume : Consistent assume ⟨ctx, []⟩) (hs : SlotsOK S o) :
+    good (A.run init o.text) = true := by
+  unfold renderTemplate at hr
+  obtain ⟨r, hrr, hr⟩ := bind_ok hr
+  cases hr
+  unfold check at h
+  have hσ := List.all_eq_true.mp h _ (mem_assignments (truthIn ⟨ctx, []⟩) enum)
+  unfold finalStates at hσ
+  cases ha : absL A (assume ++ enum.map (fun e => (e, truthIn ⟨ctx, []⟩ e))) t [(Mode.off, init)] with
+  | none => simp [ha] at hσ
+  | some X' =>
+    simp only [ha, Option.map_some] at hσ
+    have p := (absL_sound S t _ ⟨ctx, []⟩ r.1 r.2 _ X'
+      (Consistent_append hassume (Consistent_truthIn _ enum)) hrr ha hs).2 (Mode.off, init) List.mem_cons_self
+    rw [runM_off] at p
+    exact List.all_eq_true.mp hσ _ (List.mem_map.mpr ⟨_, p.1, rfl⟩)
+
 end Dcg.Proofs.TemplateAbs
